@@ -168,6 +168,20 @@ Section Oracle.
 
   Definition cf_init : cf_state := mkCF [] MaxZipFile false false.
 
+  (* the three cue.mod tests of checkFiles (the third one is dead code: topDir is "cue.mod" there) *)
+  Definition cf_cue_mod_bad (p : str) : bool :=
+    let (top, rest) := cut_on c_slash p in
+    ascii_eqfold top s_cue_mod &&
+    (negb (str_eqb top s_cue_mod)                                                    (* errCUEModCase *)
+     || (ascii_eqfold rest s_module_cue && negb (str_eqb rest s_module_cue))          (* errCUEModuleCase *)
+     || mem_str (fst (cut_on c_slash top)) [lit "pkg"%string; lit "usr"%string; lit "gen"%string]).
+
+  (* if size >= 0 && size <= maxSize { maxSize -= size } else if cf.SizeError == nil { ... } *)
+  Definition cf_account (st : cf_state) (size : Z) : cf_state :=
+    if (0 <=? size)%Z && (size <=? st_max st)%Z
+    then mkCF (st_cc st) (st_max st - size)%Z (st_size_err st) (st_found st)
+    else mkCF (st_cc st) (st_max st) true (st_found st).
+
   (* the body of the main loop of checkFiles for one file: classification + new state *)
   Definition cf_step (hcm : list str) (st : cf_state) (f : file) : verdict * cf_state :=
     let p := f_name f in
@@ -181,33 +195,24 @@ Section Oracle.
       else if str_eqb p s_hg_archival then (VOmitted, st)
       else if str_eqb p s_local_module then (VOmitted, st)
       else if negb (check_path p) then (VInvalid, st)
+      else if cf_cue_mod_bad p then (VInvalid, st)
       else
-        let (top, rest) := cut_on c_slash p in
-        if ascii_eqfold top s_cue_mod && negb (str_eqb top s_cue_mod) then (VInvalid, st)   (* errCUEModCase *)
-        else if ascii_eqfold top s_cue_mod && ascii_eqfold rest s_module_cue
-                && negb (str_eqb rest s_module_cue) then (VInvalid, st)                      (* errCUEModuleCase *)
-        else if ascii_eqfold top s_cue_mod
-                && mem_str (fst (cut_on c_slash top)) [lit "pkg"%string; lit "usr"%string; lit "gen"%string]
-             then (VInvalid, st)                                   (* dead in the Go code: topDir = "cue.mod" *)
-        else
-          let (cc', ok) := cc_check (st_cc st) p false in
-          let st1 := mkCF cc' (st_max st) (st_size_err st) (st_found st) in
-          if negb ok then (VInvalid, st1)
-          else match f_kind f with
-               | KSymlink => (VOmitted, st1)
-               | KOther => (VOmitted, st1)
-               | _ =>
-                 let size := f_size f in
-                 let st2 := if (0 <=? size)%Z && (size <=? st_max st1)%Z
-                            then mkCF cc' (st_max st1 - size)%Z (st_size_err st1) (st_found st1)
-                            else mkCF cc' (st_max st1) true (st_found st1) in
-                 if str_eqb p s_cue_mod_module_cue && (MaxCUEMod <? size)%Z then (VInvalid, st2)
-                 else
-                   let st3 := if str_eqb p s_cue_mod_module_cue
-                              then mkCF (st_cc st2) (st_max st2) (st_size_err st2) true else st2 in
-                   if str_eqb p s_license && (MaxLICENSE <? size)%Z then (VInvalid, st3)
-                   else (VValid, st3)
-               end
+        let (cc', ok) := cc_check (st_cc st) p false in           (* info.IsDir() is false here *)
+        let st1 := mkCF cc' (st_max st) (st_size_err st) (st_found st) in
+        if negb ok then (VInvalid, st1)
+        else match f_kind f with
+             | KSymlink => (VOmitted, st1)
+             | KOther => (VOmitted, st1)
+             | _ =>
+               let size := f_size f in
+               let st2 := cf_account st1 size in
+               if str_eqb p s_cue_mod_module_cue && (MaxCUEMod <? size)%Z then (VInvalid, st2)
+               else
+                 let st3 := mkCF (st_cc st2) (st_max st2) (st_size_err st2)
+                                 (st_found st2 || str_eqb p s_cue_mod_module_cue) in
+                 if str_eqb p s_license && (MaxLICENSE <? size)%Z then (VInvalid, st3)
+                 else (VValid, st3)
+             end
     end.
 
   Fixpoint cf_loop (hcm : list str) (st : cf_state) (files : list file) : list verdict * cf_state :=
@@ -280,6 +285,30 @@ Section Oracle.
   Definition entry_name (e : entry) : str :=
     if entry_is_dir e then removelast (e_name e) else e_name e.
 
+  (* the splitCUEMod block of CheckZip: None = addError, Some b = accepted, b = "this is modFile" *)
+  Definition cz_cue_mod (name : str) : option bool :=
+    let (prefix, rest) := split_cue_mod name in
+    match rest with
+    | [] => Some false
+    | _ :: _ =>
+      match prefix with
+      | _ :: _ => None                                         (* cue.mod not in module root *)
+      | [] =>
+        if negb (contains_byte c_slash rest) then None         (* cue.mod is not a directory *)
+        else if negb (has_prefix s_cue_mod_slash rest) then None   (* errCUEModCase *)
+        else if ascii_eqfold rest s_cue_mod_module_cue
+             then if negb (str_eqb rest s_cue_mod_module_cue) then None   (* errCUEModuleCase *)
+                  else Some true
+             else Some false
+      end
+    end.
+
+  (* if sz >= 0 && MaxZipFile-size >= sz { size += sz } else if cf.SizeError == nil { ... } *)
+  Definition cz_account (st : cz_state) (sz : Z) : cz_state :=
+    if (0 <=? sz)%Z && (sz <=? MaxZipFile - zs_size st)%Z
+    then mkCZ (zs_cc st) (zs_size st + sz)%Z (zs_size_err st) (zs_mod st)
+    else mkCZ (zs_cc st) (zs_size st) true (zs_mod st).
+
   (* the body of the loop of CheckZip for one zip.File *)
   Definition cz_step (st : cz_state) (e : entry) : verdict * cz_state :=
     let isDir := entry_is_dir e in
@@ -292,31 +321,14 @@ Section Oracle.
       let st1 := mkCZ cc' (zs_size st) (zs_size_err st) (zs_mod st) in
       if negb ok then (VInvalid, st1)
       else
-        let (prefix, rest) := split_cue_mod name in
-        let cue_mod_verdict :=          (* Some st' = passed (possibly recording modFile), None = addError *)
-          match rest with
-          | [] => Some st1
-          | _ =>
-            match prefix with
-            | _ :: _ => None                                         (* cue.mod not in module root *)
-            | [] =>
-              if negb (contains_byte c_slash rest) then None         (* cue.mod is not a directory *)
-              else if negb (has_prefix s_cue_mod_slash rest) then None   (* errCUEModCase *)
-              else if ascii_eqfold rest s_cue_mod_module_cue then
-                     if negb (str_eqb rest s_cue_mod_module_cue) then None    (* errCUEModuleCase *)
-                     else Some (mkCZ cc' (zs_size st1) (zs_size_err st1) true)
-                   else Some st1
-            end
-          end in
-        match cue_mod_verdict with
+        match cz_cue_mod name with
         | None => (VInvalid, st1)
-        | Some st2 =>
+        | Some is_mod =>
+          let st2 := mkCZ cc' (zs_size st) (zs_size_err st) (zs_mod st || is_mod) in
           if isDir then (VSkipped, st2)
           else
             let sz := to_int64 (e_declared e) in
-            let st3 := if (0 <=? sz)%Z && (sz <=? MaxZipFile - zs_size st2)%Z
-                       then mkCZ (zs_cc st2) (zs_size st2 + sz)%Z (zs_size_err st2) (zs_mod st2)
-                       else mkCZ (zs_cc st2) (zs_size st2) true (zs_mod st2) in
+            let st3 := cz_account st2 sz in
             if str_eqb name s_cue_mod_module_cue && (MaxCUEMod <? sz)%Z then (VInvalid, st3)
             else if str_eqb name s_license && (MaxLICENSE <? sz)%Z then (VInvalid, st3)
             else (VValid, st3)
